@@ -10,10 +10,21 @@ class ProgError(Exception):
     pass
 
 
+_NORM = {}
+
+
 def norm_ty(t):
     """normalise a type string: drop refs, lifetimes, `mut`, `dyn`, whitespace"""
     if t is None:
         return None
+    r = _NORM.get(t)
+    if r is None:
+        r = _norm_ty(t)
+        _NORM[t] = r
+    return r
+
+
+def _norm_ty(t):
     t = t.strip()
     t = re.sub(r"'[a-z_]+\s*", "", t)
     while True:
@@ -28,7 +39,18 @@ def norm_ty(t):
     return t
 
 
+_SPLIT = {}
+
+
 def split_generic(t):
+    r = _SPLIT.get(t)
+    if r is None:
+        r = _split_generic(t)
+        _SPLIT[t] = r
+    return r
+
+
+def _split_generic(t):
     """'Vec<Option<usize>>' -> ('Vec', ['Option<usize>'])"""
     t = norm_ty(t)
     if t is None:
